@@ -347,6 +347,75 @@ def d4(ctx, prog):
               'every Preprocess subclass __call__ is wrapped by the decorator', meta.mod.relpath)
 
 
+def d5(ctx, prog):
+    """frame configuration pass-through: a frame given as a list / tuple / array reaches the indexing unchanged.  Every path of
+    `_set_frame` on which the frame is neither a slice nor an int must store the caller's object itself (or an order-preserving
+    copy); a slice becomes range(start or 0, stop, step or 1) and an int the one-element list."""
+    HO = 'scared.preprocesses.high_order._base'
+    ci = prog.need_class(HO, '_BaseCombination')
+    f = ci.methods.get('_set_frame')
+    if f is None:
+        raise AnalysisError('_BaseCombination._set_frame not found')
+    fr = f.params[-1]
+    pm = astutil.parents(f.node)
+
+    def kind(node):
+        """'slice' / 'int' when the statement is control dependent on isinstance(frame, slice/int) being true, else 'other'"""
+        for t, pos in astutil.guards(node, pm, f.node):
+            txt = norm(t).replace(' ', '')
+            if pos and txt == f'isinstance({fr},slice)':
+                return 'slice'
+            if pos and txt == f'isinstance({fr},int)':
+                return 'int'
+        return 'other'
+
+    def elementwise_guard(node):
+        return any(any(isinstance(c, ast.Call) and norm(c.func).split('.')[-1] in ('all', 'array_equal', 'diff') for c in ast.walk(t)) for t, pos in astutil.guards(node, pm, f.node))
+    SAME = ('list', 'tuple', 'asarray', 'array', 'copy')
+    n = 0
+    values = []       # (kind, value expr, node)
+    for st in ast.walk(f.node):
+        if isinstance(st, ast.Call) and norm(st.func) == 'setattr' and len(st.args) == 3:
+            values.append((kind(st), st.args[2], st))
+        elif isinstance(st, ast.Assign) and len(st.targets) == 1 and norm(st.targets[0]) == fr:
+            values.append((kind(st), st.value, st))
+    stores = [v for v in values if isinstance(v[2], ast.Call)]
+    if not stores:
+        ctx.undecided('C18-D5', f'{f.key}::store', 'no setattr store of the frame found', f.where())
+        return 0
+    for k, v, node in values:
+        key = f'{f.key}::{k} frame::{norm(node)[:70]}'
+        n += 1
+        if k == 'other':
+            if norm(v) == fr:
+                ctx.ok('C18-D5', key, 'a list / array frame is stored as given', f.where(node))
+            elif isinstance(v, ast.Call) and norm(v.func).split('.')[-1] in SAME and len(v.args) == 1 and norm(v.args[0]) == fr:
+                ctx.ok('C18-D5', key, 'a list / array frame is stored as an order-preserving copy', f.where(node))
+            elif elementwise_guard(node):
+                ctx.undecided('C18-D5', key, f'frame replaced by `{norm(v)[:50]}` under an element-wise test: equivalence not decidable here', f.where(node))
+            else:
+                ctx.fail('C18-D5', key, f'a frame that is neither a slice nor an int is replaced by `{norm(v)[:60]}`, a value computed from it: the samples combined (and their order) '
+                         f'are no longer the ones the caller listed (unsorted or repeated indexes)', f.where(node))
+        elif k == 'int':
+            ctx.check(norm(v).replace(' ', '') == f'[{fr}]' or norm(v) == fr and False, 'C18-D5', key, f'an int frame becomes `{norm(v)[:40]}`, not the one-element list [{fr}]', 'int frame -> [frame]', f.where(node))
+        else:
+            ok = isinstance(v, ast.Call) and norm(v.func) == 'range' and len(v.args) == 3
+            if ok:
+                a, b, c = [norm(x).replace(' ', '') for x in v.args]
+                ok = a in (f'{fr}.startif{fr}.startelse0', f'{fr}.startor0', f'0if{fr}.startisNoneelse{fr}.start') and b == f'{fr}.stop' \
+                    and c in (f'{fr}.stepif{fr}.stepelse1', f'{fr}.stepor1', f'1if{fr}.stepisNoneelse{fr}.step')
+            ctx.pattern(ok, 'C18-D5', key, f'slice frame becomes `{norm(v)[:60]}`', 'slice frame -> range(start or 0, stop, step or 1)', f.where(node))
+    # the stored frames are what indexes the sample axis
+    uses = 0
+    for g in prog.funcs_in(HO):
+        for sub in ast.walk(g.node):
+            if isinstance(sub, ast.Subscript) and isinstance(sub.slice, ast.Tuple) and len(sub.slice.elts) == 2 and isinstance(sub.slice.elts[0], ast.Slice) \
+                    and norm(sub.slice.elts[1]) in ('self.frame_1', 'self.frame_2', 'frame_1', 'frame_2'):
+                uses += 1
+    ctx.check(uses >= 4, 'C18-D5', f'{HO}::frames index the sample axis', f'only {uses} uses of the stored frames as sample-axis index found', f'{uses} uses `traces[:, frame]`: all rows, listed samples in listed order', ci.mod.relpath)
+    return n
+
+
 def run(ctx, prog):
     ctx.rule('C18-D1', 'arithmetic on traces-derived values only after promotion (astype(join) / dtype=join / float partner computed with the join / FFT); helpers judged per call site')
     ctx.rule('C18-D2', 'the promotion dtype is numpy.result_type/promote_types of the traces dtype and the precision, never builtin max()')
@@ -359,5 +428,7 @@ def run(ctx, prog):
     n2 = d2(ctx, prog)
     n3 = d3(ctx, prog, eps)
     d4(ctx, prog)
+    ctx.rule('C18-D5', 'frame pass-through: list / array frames are stored as given (or an order-preserving copy), slice -> range(start or 0, stop, step or 1), int -> [int]; stored frames index the sample axis')
+    ctx.floor('frame configuration stores', d5(ctx, prog), 3)
     ctx.floor('preprocess entry points', len(eps), 20)
     ctx.floor('promotion dtype computations', n2, 9)
